@@ -246,7 +246,9 @@ fn join_pieces(v: P, d1: P, d2: P, hw: f64, join: u8, miter_limit: f64, take: Ta
                 // miter when 1/sin(theta/2) <= limit, i.e. 2 <= limit^2 (1 + cos(phi)), phi = turning angle
                 let cosphi = dot(n1, n2);
                 let lhs = miter_limit * miter_limit * (1.0 + cosphi);
-                let near = (lhs - 2.0).abs() < 2e-3 * (1.0 + miter_limit * miter_limit);
+                // (the library's f32 normals put an error of about 1e-6 on 1 + cos(phi), i.e. 1e-6 x limit^2 on lhs;
+                // the band is ten times that plus a constant, not a fraction of limit^2, so that large limits stay decidable)
+                let near = (lhs - 2.0).abs() < 2e-2 + 1e-5 * miter_limit * miter_limit;
                 let use_miter = if near {
                     *ambiguous = true;
                     take == Take::Larger
@@ -328,7 +330,10 @@ pub struct Region {
 }
 
 impl Region {
-    pub fn new(pieces: Vec<Piece>, xf: &Xf, spacing_dev: f64) -> Option<Region> {
+    /// `extent`: side of the surface in device px; only what lies within 32 px of it is bucketed and sampled
+    /// (a miter spike may run thousands of pixels off the surface)
+    pub fn new(pieces: Vec<Piece>, xf: &Xf, spacing_dev: f64, extent: f64) -> Option<Region> {
+        let (wlo, whi) = (-32.0f64, extent + 32.0);
         let inv = xf_inverse64(xf)?;
         // singular values of the linear part
         let (a, b, c, d) = (xf[0] as f64, xf[1] as f64, xf[2] as f64, xf[3] as f64);
@@ -358,7 +363,10 @@ impl Region {
             if !b.0.is_finite() {
                 continue;
             }
-            let (x0, y0, x1, y1) = ((b.0 / 4.0).floor() as i32, (b.1 / 4.0).floor() as i32, (b.2 / 4.0).floor() as i32, (b.3 / 4.0).floor() as i32);
+            if b.2 < wlo || b.3 < wlo || b.0 > whi || b.1 > whi {
+                continue;
+            }
+            let (x0, y0, x1, y1) = ((b.0.max(wlo) / 4.0).floor() as i32, (b.1.max(wlo) / 4.0).floor() as i32, (b.2.min(whi) / 4.0).floor() as i32, (b.3.min(whi) / 4.0).floor() as i32);
             if (x1 - x0) as i64 * (y1 - y0) as i64 > 250_000 {
                 return None;
             }
@@ -377,6 +385,9 @@ impl Region {
             for (pt, nrm) in &buf {
                 let outside = add(*pt, mul(*nrm, eps_user));
                 let od = xf_apply(xf, outside);
+                if od.0 < wlo || od.1 < wlo || od.0 > whi || od.1 > whi {
+                    continue;
+                }
                 let cell = ((od.0 / 4.0).floor() as i32, (od.1 / 4.0).floor() as i32);
                 let covered = pgrid.get(&cell).map_or(false, |v| v.iter().any(|j| *j != i && pieces[*j].contains(outside)));
                 if !covered {
@@ -429,8 +440,9 @@ pub const SPACING: f64 = 1.0 / 16.0;
 /// `margin` is the statement's margin (0.5 px for polylines, 1 px for curves, 0.75 px for dashes).
 pub fn verdicts(polys: &[Poly], width: f64, cap: u8, join: u8, miter_limit: f64, xf: &Xf, w: i32, h: i32, margin: f64) -> Option<Vec<u8>> {
     let inner = build(polys, width, cap, join, miter_limit, Take::Smaller);
-    let r_in = Region::new(inner.pieces, xf, SPACING)?;
-    let r_out = if inner.ambiguous { Some(Region::new(build(polys, width, cap, join, miter_limit, Take::Larger).pieces, xf, SPACING)?) } else { None };
+    let extent = w.max(h) as f64;
+    let r_in = Region::new(inner.pieces, xf, SPACING, extent)?;
+    let r_out = if inner.ambiguous { Some(Region::new(build(polys, width, cap, join, miter_limit, Take::Larger).pieces, xf, SPACING, extent)?) } else { None };
     let r_out_ref = r_out.as_ref().unwrap_or(&r_in);
     // the whole pixel must clear the boundary by the margin: half diagonal + sampling slack
     let reach = margin + 0.70711 + SPACING / 2.0 + 1e-3;
